@@ -590,11 +590,15 @@ def run_check(prop, tier="quick", seed=0, replay=None):
 
     main_n = total["n"] - (extra_info.get("evaluations", 0) if extra_info else 0)
     main_modelled = total["modelled"] - (int(extra_info.get("modelled", 0)) if extra_info else 0)
-    if harness_errors:
+    if harness_errors and not bad_all:
+        # infrastructure trouble and nothing else to report: never a VIOLATION line.  (When failing cases were found
+        # as well they are reported below — they stand on their own records — and the trouble is printed to stderr.)
         for h in harness_errors[:5]:
             print("harness error: " + h, file=sys.stderr)
         log.close()
         return 2
+    for h in harness_errors[:3]:
+        print("harness warning (records skipped): " + h[:300], file=sys.stderr)
     floor = getattr(P, "min_modelled_fraction", 0.5)
     if not replay and main_n >= 20 and b["driver_ok"] and main_modelled < floor * main_n:
         # the correspondence silently switched off (model_request returning None / raising for most cases)
